@@ -156,10 +156,11 @@ def _helper_resolver(f):
     return resolve
 
 
-def check(eng, R, rule, cname, fname, kind, spec, target=None, when=None, what="", index=None, not_none=True, rename=None, known=()):
+def check(eng, R, rule, cname, fname, kind, spec, target=None, when=None, what="", index=None, not_none=True, rename=None, known=(), inline_helpers=True):
     p = eng.p
     f = get_func(p, cname, fname)
-    node = eng.cnode(f) if kind in ("result", "store", "arg") else None  # the path-sensitive kinds read the canonical form
+    # the path-sensitive kinds read the canonical form (inline_helpers=False: helper calls stay calls, the specification names them)
+    node = eng.cnode(f, inline=inline_helpers) if kind in ("result", "store", "arg") else None
     forms = extract(f, kind, target, when, index, node=node)
     forms = [(c, x, lv) for c, x, lv in forms if not (not_none and x.canon() == "None")]
     construct = "%s.%s:%s%s" % (cname or "", fname, target or "return", (":" + (when if isinstance(when, str) else "&".join(when))) if when else "")
